@@ -61,7 +61,7 @@ def determinism(args, seed, core):
         exe = core.build(cfg)
         env = st.get("env", {})
         def go(first, count, aslr):
-            cmd = [exe, "run", "scen=" + scen, "seed=%d" % seed, "first=%d" % first, "count=%d" % count, "timeout=20"] + core.envargs(env)
+            cmd = [exe, "run", "scen=" + scen, "seed=%d" % seed, "first=%d" % first, "count=%d" % count, "timeout=120"] + core.envargs(env)
             if not aslr: cmd = ["setarch", "x86_64", "-R"] + cmd
             r = subprocess.run(cmd, stdout=subprocess.PIPE, stderr=subprocess.DEVNULL, text=True, errors="replace")
             return [re.sub(r" st=\S+", "", l) for l in r.stdout.splitlines() if l.startswith("RUN ")]
